@@ -37,6 +37,7 @@ func init() {
 				pc.Cutoff, pc.NaNCutoff = 0, true
 			}
 			pc.Recs2 = genRecs2(rt, pc.Recs, true)
+			pc.ShareObjects = rapid.IntRange(0, 3).Draw(rt, "shareobjects") == 0
 			return pc
 		},
 		New:  func() any { return &PipeCase{} },
